@@ -11,8 +11,8 @@ FUNCS = ['pyg_base._pandas:_closed', 'pyg_base._pandas:_df_slice', 'pyg_base._pa
 BOUNDS = dict(series = 'datetime-indexed Series of 0..3 rows (thorough 4), strictly increasing symbolic stamps anywhere in 1900-2300 (gaps 1..40 days, or 1..60 hours for the time-of-day '
                        'obligations), symbolic values', bounds = 'lb, ub each None or an arbitrary datetime (before / on / between / after the stamps are solver cases), or arbitrary times of day '
                        '(incl. windows that wrap past midnight); all four bracket pairs and the default',
-              stitching = '2..3 series and increasing or decreasing symbolic upper-bound lists, n = 1')
-OUTSIDE = ['multi-column frames, n > 1 and df_unslice (they need a DataFrame model: pandas concat(axis=1) / column selection are not modelled)', 'pd.Index and non-datetime indices as the object being sliced',
+              stitching = '2..3 series and increasing or decreasing symbolic upper-bound lists, n = 1 and n = 2 columns')
+OUTSIDE = ['multi-column frames as the object being sliced, stitching into n > 2 columns, df_unslice', 'pd.Index and non-datetime indices as the object being sliced',
            'more than 4 rows']
 ASSUMPTIONS = ['pandas is replaced by the minipd model (vf/minipd.py), validated against the real pandas 3.0.6 on an exhaustive small grid at the start of every run (label slices, masks, '
                'time-of-day masks, concat + sort_index ...); counterexamples are replayed on the real pandas']
@@ -86,6 +86,59 @@ def h_stitch(k, n, decreasing):
         c.check('every-stamp-takes-its-data-from-the-series-whose-bound-interval-holds-it-at-most-once', len(got) == len(want) and all(g[0] == w[0] and feq(g[1], w[1]) for g, w in zip(got, want)))
     return h
 
+def h_stitch_cols(k, n, decreasing, ncols = 2):
+    """with ncols columns, column j of the stitched frame takes its data at stamp t from series i+j, i being the series whose bound interval holds t (NaN beyond the last series)"""
+    def h(c):
+        from .c12 import frame_rows
+        Pm = P()
+        ts = sorted_stamps(c, 't', n)
+        series = [mkseries(c, [value(c, 's%d.v%d' % (j, i), nan = False) for i in range(n)], ts) for j in range(k)]
+        vals = [[v for t, v in rows(s)] for s in series]
+        ubs = sorted_stamps(c, 'ub', k, gap_days = 60)
+        dfs = list(series[::-1]) if decreasing else list(series)
+        bounds = list(ubs[::-1]) if decreasing else list(ubs)
+        r = Pm.df_slice(dfs, None, bounds, '(]', n = ncols)
+        got, names = frame_rows(r)
+        want = []
+        for i, t in enumerate(ts):
+            for j in range(k):
+                lo_ok = True if j == 0 else key(t) > key(ubs[j - 1])
+                if X.And(lo_ok, key(t) <= key(ubs[j])): want.append((t, tuple(vals[j + m][i] if j + m < k else float('nan') for m in range(ncols)))); break
+        c.check('stitched-frame-has-n-columns', list(names) == list(range(ncols)))
+        c.check('column-j-takes-its-data-from-series-i+j', len(got) == len(want) and all(g[0] == w[0] and all(feq(a, b) for a, b in zip(g[1], w[1])) for g, w in zip(got, want)))
+    return h
+
+def gate_stitch():
+    """the real df_slice(list, ub = list, n = 2) under the real pandas vs under the model on a small exhaustive domain"""
+    import pandas as rpd, itertools, pyg_base._pandas as RP
+    from .c12 import frame_rows
+    grid = [_rdt.datetime(2020, 1, 1) + _rdt.timedelta(days = i) for i in range(4)]
+    cases = []
+    for rowsel in [(0,), (0, 2), (1, 2, 3), (0, 1, 2, 3)]:
+        for ub in itertools.permutations(range(4), 2):
+            for k in (2, 3):
+                ubs = sorted(ub + ((3,) if k == 3 and 3 not in ub else (0,) if k == 3 and 0 not in ub else ())) if k == 3 else sorted(ub)
+                if len(set(ubs)) != k: continue
+                for dec in (False, True): cases.append((rowsel, ubs, k, dec))
+    def run(Pm, mk):
+        out = []
+        for rowsel, ubs, k, dec in cases:
+            ss = [mk([10.0 * j + i for i in rowsel], [grid[i] for i in rowsel]) for j in range(k)]; bs = [grid[u] for u in ubs]
+            if dec: ss = ss[::-1]; bs = bs[::-1]
+            try: out.append(frame_rows(Pm.df_slice(ss, None, bs, '(]', n = 2)))
+            except Exception as e: out.append('raised %s' % type(e).__name__)
+        return out
+    real = run(RP, lambda v, i: rpd.Series(v, rpd.DatetimeIndex(i), dtype = float))
+    Pm = setup_pandas()
+    model = run(Pm, lambda v, i: minipd.Series(list(v), list(i)))
+    def same(x, y):
+        if isinstance(x, str) or isinstance(y, str): return x == y
+        (rx, nx), (ry, ny) = x, y
+        return list(nx) == list(ny) and len(rx) == len(ry) and all(a[0] == b[0] and all(p == q or (p != p and q != q) for p, q in zip(a[1], b[1])) for a, b in zip(rx, ry))
+    for case, x, y in zip(cases, real, model):
+        if not same(x, y): return False, dict(mismatch = str(case), real = str(x)[:300], model = str(y)[:300])
+    return True, dict(comparisons = len(cases))
+
 def obligations(tier):
     q = tier == 'quick'; N = 3 if q else 4
     S = setup_pandas
@@ -104,4 +157,10 @@ def obligations(tier):
             for dec in (False, True):
                 obs.append(Ob('stitch.%d-series.%d.%s' % (k, n, 'decreasing' if dec else 'increasing'), h_stitch(k, n, dec), setup = S, budget_s = 300 if q else 1500,
                               desc = 'stitching %d series over %d stamps with %s upper bounds' % (k, n, 'decreasing' if dec else 'increasing')))
+    obs.append(Ob('gate.stitch-columns-model', gate_stitch, engine = 'gate', desc = 'df_slice(list of series, ub = list, n = 2) under the frame model == under the real pandas on a small exhaustive domain'))
+    for k in (2, 3):
+        for n in range(1, (3 if q else 4)):
+            for dec in (False, True):
+                obs.append(Ob('stitch-2-columns.%d-series.%d.%s' % (k, n, 'decreasing' if dec else 'increasing'), h_stitch_cols(k, n, dec), setup = S, budget_s = 300 if q else 1500,
+                              desc = 'stitching %d series over %d stamps into 2 columns with %s upper bounds' % (k, n, 'decreasing' if dec else 'increasing')))
     return obs
